@@ -311,6 +311,54 @@ func c06CallbackDecodes(files []*ast.File, fn string) []string {
 	return res
 }
 
+// c06StreamCreators lists every function of auctioneer/client.go that calls
+// connectServerStream (i.e. (re-)creates the stream to the auctioneer) with
+// what it does next: "check-before-subscribe" when a call of
+// c.checkPendingBatch() follows the connectServerStream call and precedes
+// every account (re-)subscription (errChanSwitch.Divert /
+// StartAccountSubscription) of that function, else "no-check".
+func c06StreamCreators(files []*ast.File) [][2]string {
+	var res [][2]string
+	for _, f := range files {
+		for _, d := range f.Decls {
+			fd, ok := d.(*ast.FuncDecl)
+			if !ok || fd.Body == nil || fd.Name.Name == "connectServerStream" {
+				continue
+			}
+			connect, check, subscribe := token.NoPos, token.NoPos, token.NoPos
+			ast.Inspect(fd.Body, func(n ast.Node) bool {
+				ce, ok := n.(*ast.CallExpr)
+				if !ok {
+					return true
+				}
+				switch name := exprString(ce.Fun); {
+				case name == "c.connectServerStream" && connect == token.NoPos:
+					connect = ce.Pos()
+				case name == "c.checkPendingBatch" && connect != token.NoPos && check == token.NoPos:
+					check = ce.Pos()
+				case (name == "c.errChanSwitch.Divert" || name == "c.StartAccountSubscription") &&
+					connect != token.NoPos && subscribe == token.NoPos:
+					subscribe = ce.Pos()
+				}
+				return true
+			})
+			if connect == token.NoPos {
+				continue
+			}
+			verdict := "no-check"
+			if check != token.NoPos && check > connect && (subscribe == token.NoPos || check < subscribe) {
+				verdict = "check-before-subscribe"
+			}
+			res = append(res, [2]string{fd.Name.Name, verdict})
+		}
+	}
+	sort.Slice(res, func(i, j int) bool { return res[i][0] < res[j][0] })
+	if len(res) == 0 {
+		fail("auctioneer: no caller of connectServerStream found")
+	}
+	return res
+}
+
 func leanPairList(xs [][2]string) string {
 	var q []string
 	for _, x := range xs {
@@ -389,6 +437,7 @@ func genC06() {
 	l.p("def updateOrderDecodes : List String := %s", leanStrList(c06CallbackDecodes(dbFiles, "updateOrder")))
 	l.p("def copyOrderDecodes : List String := %s", leanStrList(c06CallbackDecodes(dbFiles, "copyOrder")))
 	l.p("def getOrderDecodes : List String := %s", leanStrList(c06CallbackDecodes(dbFiles, "DB.GetOrder")))
+	l.p("def streamCreators : List (String × String) := %s", leanPairList(c06StreamCreators(aucFiles)))
 	l.p("def spendSwitch : List (String × String) := %s", leanPairList(spendSwitch(acctFiles)))
 	l.p("def accountStorePendingBatchCalls : List String := %s",
 		leanStrList(methodCalls(pkgFiles("."), "pool", "accountStore.PendingBatch")))
